@@ -20,6 +20,7 @@ import Vicut.Model.Vic
 import Vicut.Model.VimSpec
 import Vicut.Model.Motions
 import Vicut.Model.Words
+import Vicut.Model.Delims
 
 open Lean Vicut
 
@@ -582,6 +583,16 @@ def opParaObj (req : Json) : Json :=
   | none => Json.mkObj [("mk", mkJson .null)]
   | some (a, b) => Json.mkObj [("mk", mkJson (.lineRange a b))]
 
+/-- `{"op":"delim_match","gs":[..],"cur":n,"excl":b}`: `%` -/
+def opDelimMatch (req : Json) : Json :=
+  let s : MS := ⟨gsOf req, jnat req "cur", jbool req "excl", false, []⟩
+  Json.mkObj [("mk", mkJson (Delim.evalDelimMatch s))]
+
+/-- `{"op":"unmatched","gs":[..],"cur":n,"excl":b,"opener":g,"closer":g,"fwd":b}`: `[(` `])` `[{` `]}` -/
+def opUnmatched (req : Json) : Json :=
+  let s : MS := ⟨gsOf req, jnat req "cur", jbool req "excl", false, []⟩
+  Json.mkObj [("mk", mkJson (Delim.evalUnmatched s (jstr req "opener").toList (jstr req "closer").toList (jbool req "fwd")))]
+
 /-- `{"op":"sentence","k":[0..4],"cur":n,"count":n,"fwd":b,"has_verb":b}` -/
 def opSentence (req : Json) : Json :=
   let k : List Nat := (jarr req "k").toList.map (fun x => x.getNat?.toOption.getD 0)
@@ -614,6 +625,8 @@ def dispatch (req : Json) : Json :=
   | "paragraph" => opParagraph req
   | "para_obj" => opParaObj req
   | "sentence" => opSentence req
+  | "delim_match" => opDelimMatch req
+  | "unmatched" => opUnmatched req
   | op => Json.mkObj [("err", Json.str s!"unknown op {op}")]
 
 partial def loop (h : IO.FS.Stream) (out : IO.FS.Stream) : IO Unit := do
